@@ -445,3 +445,22 @@ SPECS["C14"] = Spec(
                          "position": "after 0 (quick) / 0 and 2 (thorough) pass-through middleware"},
     rule="one job per return shape; every value of that shape within the bounds",
 )
+
+
+# --------------------------------------------------------------------------- C15
+def c15_jobs(tier, seed):
+    combos = [(0, 0), (1, 1), (2, 2)] if tier == "quick" else [(b, d) for b in (0, 1, 2) for d in (0, 1, 2, 3)]
+    return [{"pkg_short": "flamego", "body": "VH_C15_recovery", "params": {"before": b, "depth": d}} for b, d in combos]
+
+
+SPECS["C15"] = Spec(
+    "C15", ["flamego/c13.go", "flamego/c15.go", "route/parse.go"], c15_jobs,
+    assumptions=[
+        "real Flame, Recovery() closure incl. its deferred function, LoggerInvoker, run/Next, inject, responseWriter; the interpreter implements defer/panic/recover and raises Go run-time panics itself (nil-map write, index out of range)",
+        "stubs: logger (no-op), runtime.Caller (ok=false, so the stack text is empty), os.ReadFile, fmt.Sprintf (subset incl. %[n]s), http.StatusText (host)",
+        "panic kinds: string, error value, two run-time errors, struct, failed dependency resolution; http.ErrAbortHandler is not special-cased by Recovery and is represented by an ordinary error value (net/http's package init is not run inside the interpreter)",
+        "panic(nil), panics in goroutines and in middleware placed before Recovery are outside the claim",
+    ],
+    bounds=lambda tier: {"middleware_before_recovery": "0..2", "pass_through_depth": "0..2 quick / 0..3 thorough", "earlier_status": "[100,999] symbolic", "env": "dev/prod/test"},
+    rule="every combination of panic kind, phase, earlier status, environment and nesting style; non-trivial when the panic crosses at least one frame",
+)
